@@ -1,8 +1,11 @@
 Require Import Coq.Strings.String.
-Require Import Base.Bytes Wire.Layout Wire.LayoutProofs Props.C11.
+Require Import Props.C11.
+Require Import Base.Bytes Wire.Layout Wire.LayoutProofs.
 Local Open Scope N_scope.
+Require Import Gen.Packets Wire.Packet.
 Check c11_fixed_exact_width : forall n bs,
-  length (write_fixed n bs) = n /\ write_fixed n bs = firstn n bs ++ repeat 0 (n - length (firstn n bs)).
+  length (write_fixed n bs) = n /\
+  write_fixed n bs = firstn n bs ++ repeat 0 (n - length (firstn n bs)).
 Check c11_aligned_width : forall mx al bs, (0 < al)%nat -> Nat.modulo mx al = 0%nat ->
   length (write_aligned mx al bs) = Nat.min mx (round_up (length bs) al) /\
   Nat.modulo (length (write_aligned mx al bs)) al = 0%nat /\
@@ -10,21 +13,33 @@ Check c11_aligned_width : forall mx al bs, (0 < al)%nat -> Nat.modulo mx al = 0%
   write_aligned mx al bs = firstn mx (bs ++ repeat 0 (round_up (length bs) al - length bs)).
 Check c11_decode_stops_at_first_nul : forall a b, nonul a = true -> strip_nul (a ++ 0 :: b) = a.
 Check c11_strip_idempotent : forall bs, strip_nul (strip_nul bs) = strip_nul bs.
-Check c11_fixed_read_back : forall n bs, (length bs <= n)%nat -> nonul bs = true -> strip_nul (write_fixed n bs) = bs.
-Check c11_fixed_terminated_outside_known_class : forall n bs,
+Check c11_fixed_read_back : forall n bs, (length bs <= n)%nat -> nonul bs = true ->
+  strip_nul (write_fixed n bs) = bs.
+Check c11_terminated_fixed : forall n bs, (0 < n)%nat ->
+  length (write_text n true bs) = n /\ last (write_text n true bs) 1 = 0 /\
+  write_text n true bs = firstn (Nat.pred n) bs ++ repeat 0 (n - length (firstn (Nat.pred n) bs)).
+Check c11_terminated_aligned : forall mx al bs, (0 < al)%nat -> (0 < mx)%nat -> Nat.modulo mx al = 0%nat ->
+  last (write_aligned_z mx al bs) 1 = 0 /\
+  Nat.modulo (length (write_aligned_z mx al bs)) al = 0%nat /\ (length (write_aligned_z mx al bs) <= mx)%nat.
+Check c11_terminated_read_back : forall n bs, (0 < n)%nat -> (length bs <= Nat.pred n)%nat -> nonul bs = true ->
+  strip_nul (write_text n true bs) = bs.
+Check c11_the_four_packets_use_the_terminated_writer :
+  forallb (fun e => let '(_, nm, k) := e in
+                    if must_terminate nm then negb (match text_flags k with [] => true | _ => false end) && forallb (fun z => z) (text_flags k)
+                    else forallb negb (text_flags k)) packet_table = true.
+Check c11_plain_fixed_terminated_iff_room : forall n bs,
   ~ known_class_full_width n bs -> last (write_fixed n bs) 1 = 0.
-Check c11_fixed_terminator_refuted :
-  exists bs, known_class_full_width 64 bs /\ nonul bs = true /\ last (write_fixed 64 bs) 1 <> 0.
-Check c11_aligned_terminator_refuted : exists bs, nonul bs = true /\ last (write_aligned 128 4 bs) 1 <> 0.
-Check c11_aligned_terminated_outside_known_class : forall mx al bs,
-  (0 < al)%nat -> Nat.modulo mx al = 0%nat -> (length bs < mx)%nat -> Nat.modulo (length bs) al <> 0%nat ->
-  last (write_aligned mx al bs) 1 = 0.
+Check c11_plain_writer_refuted :
+  (exists bs, known_class_full_width 64 bs /\ nonul bs = true /\ last (write_fixed 64 bs) 1 <> 0) /\
+  (exists bs, nonul bs = true /\ last (write_aligned 128 4 bs) 1 <> 0).
 Print Assumptions c11_fixed_exact_width.
 Print Assumptions c11_aligned_width.
 Print Assumptions c11_decode_stops_at_first_nul.
 Print Assumptions c11_strip_idempotent.
 Print Assumptions c11_fixed_read_back.
-Print Assumptions c11_fixed_terminated_outside_known_class.
-Print Assumptions c11_fixed_terminator_refuted.
-Print Assumptions c11_aligned_terminator_refuted.
-Print Assumptions c11_aligned_terminated_outside_known_class.
+Print Assumptions c11_terminated_fixed.
+Print Assumptions c11_terminated_aligned.
+Print Assumptions c11_terminated_read_back.
+Print Assumptions c11_the_four_packets_use_the_terminated_writer.
+Print Assumptions c11_plain_fixed_terminated_iff_room.
+Print Assumptions c11_plain_writer_refuted.
